@@ -226,7 +226,8 @@ fn segment_pool(r: &mut Rng, t: &DTy) -> Vec<Vec<u8>> {
 }
 
 pub fn gen_acc(r: &mut Rng, thorough: bool, overflow: bool, out: &mut Vec<String>) {
-    let tys = [DTy::U(8), DTy::Tuple(vec![DTy::U(8), DTy::U(16)]), DTy::Bytes, DTy::Str, DTy::Struct(vec![DTy::U(32), DTy::U(8)]), DTy::Option(Box::new(DTy::I(16)))];
+    // (incl. types whose wire form is zero bytes: an empty frame is then a VALID message)
+    let tys = [DTy::U(8), DTy::Tuple(vec![DTy::U(8), DTy::U(16)]), DTy::Bytes, DTy::Str, DTy::Struct(vec![DTy::U(32), DTy::U(8)]), DTy::Option(Box::new(DTy::I(16))), DTy::Unit, DTy::Tuple(vec![]), DTy::UStruct];
     let maxlen = if thorough { 13 } else { 8 };
     let streams = if thorough { 400 } else { 60 };
     for si in 0..streams {
